@@ -54,43 +54,39 @@ example :
     (pluginsAdd m b).isSome = true ∧ ∀ k ∈ ownKeys b, get m k = none := by
   decide
 
-/-- **Coins local data, partial**: holds when every coins transaction of the block took effect (receipt ExecOk)
-and none is a genesis action — the hypothesis `CoinsAllOk` is what is added to the full statement. -/
-theorem del_after_add_id_coins_partial (m : Store) (txs : List Tx) (H : CoinsAllOk txs) (k : Key) :
+/-- **Coins local data** (`Coins.ExecLocal` / `ExecDelLocal`, the latter per transaction in reverse block order):
+for every store and every list of transactions — failed ones (receipt ExecPack), repeated addresses, withdrawals —
+add then remove restores every key. The only hypothesis is a fact about heights above 0: no genesis action
+executed successfully (`Exec_Genesis` fails there; there is no `ExecDelLocal_Genesis`). -/
+theorem del_after_add_id_coins (m : Store) (txs : List Tx) (H : NoGenesisOk txs) (k : Key) :
     obsEq (get (applyKVs (applyKVs m (run m (coinsSteps true txs)))
       (run (applyKVs m (run m (coinsSteps true txs))) (coinsSteps false txs))) k) (get m k) := by
   rw [applyKVs_run, applyKVs_run, ← exec_append]
   exact key_restored m k _ _ (Or.inl (coins_counter k txs H))
 
-example : CoinsAllOk [{ hash := [1], sender := [65], to := [66], fee := 1, rty := 2, txres := [], info := [], feeinfo := [], coins := .transfer 5 }] := by
-  intro t ht; simp at ht; subst ht; right; exact ⟨rfl, fun a => by simp⟩
+/-- non-vacuity: a failed transfer and a successful one. -/
+def exFailed : Tx := { hash := [1], sender := [65], to := [66], fee := 1, rty := 1, txres := [], info := [], feeinfo := [], coins := .transfer 5 }
+def exOk : Tx := { hash := [2], sender := [65], to := [66], fee := 1, rty := 2, txres := [], info := [], feeinfo := [], coins := .transfer 7 }
+example : NoGenesisOk [exFailed, exOk] := by
+  intro t ht a hc
+  simp at ht
+  rcases ht with e | e <;> subst e <;> simp [exFailed, exOk] at hc
 
-/-- the statement the property asks for (no hypothesis on receipts). -/
-def CoinsFullStatement : Prop :=
-  ∀ (m : Store) (txs : List Tx) (k : Key),
-    obsEq (get (applyKVs (applyKVs m (run m (coinsSteps true txs)))
-      (run (applyKVs m (run m (coinsSteps true txs))) (coinsSteps false txs))) k) (get m k)
+/-- **regression witness for the defect repaired in /repo (fix 303f1d2, S-C14)**: with the old `Coins.ExecLocal`,
+which did not look at the receipt, a transfer of 5 that failed in execution (receipt ExecPack) was counted on add
+and skipped on removal — the recipient's total stayed at 5; with the repaired code it stays absent. -/
+theorem regression_coins_failed_transfer :
+    get (applyKVs (applyKVs [] (run [] ([exFailed].flatMap coinsAddStepPreFix)))
+      (run (applyKVs [] (run [] ([exFailed].flatMap coinsAddStepPreFix))) (coinsSteps false [exFailed]))) (Key.recv [66]) = some (.int 5) ∧
+    get (applyKVs (applyKVs [] (run [] (coinsSteps true [exFailed])))
+      (run (applyKVs [] (run [] (coinsSteps true [exFailed]))) (coinsSteps false [exFailed]))) (Key.recv [66]) = none := by
+  decide
 
-/-- **The full statement is false of the code (S-C14)**: a transfer of 5 that failed in execution (receipt
-ExecPack) is counted by `Coins.ExecLocal` and skipped by `ExecDelLocal`: after add + remove the recipient's
-received total is 5 instead of absent. Replayed on the implementation by the harness (known finding). -/
-theorem coins_full_false : ¬ CoinsFullStatement := by
-  intro h
-  have h1 := h [] [{ hash := [1], sender := [65], to := [66], fee := 1, rty := 1, txres := [], info := [], feeinfo := [], coins := .transfer 5 }] (Key.recv [66])
-  have e : get (applyKVs (applyKVs [] (run [] (coinsSteps true [{ hash := [1], sender := [65], to := [66], fee := 1, rty := 1, txres := [], info := [], feeinfo := [], coins := CoinsAct.transfer 5 }])))
-      (run (applyKVs [] (run [] (coinsSteps true [{ hash := [1], sender := [65], to := [66], fee := 1, rty := 1, txres := [], info := [], feeinfo := [], coins := CoinsAct.transfer 5 }]))) (coinsSteps false [{ hash := [1], sender := [65], to := [66], fee := 1, rty := 1, txres := [], info := [], feeinfo := [], coins := CoinsAct.transfer 5 }]))) (Key.recv [66]) = some (.int 5) := by decide
-  rw [e] at h1
-  unfold obsEq at h1
-  rcases h1 with h1 | ⟨h1, _⟩
-  · simp [get] at h1
-  · rcases h1 with h1 | ⟨v, hv, he⟩
-    · simp at h1
-    · simp at hv; subst hv; simp [Val.isEmptyEnc] at he
-
-/-- **Whole block, partial**: plugins + coins hooks in the order of `procExecAddBlock`/`procExecDelBlock`
-(per-transaction removal in reverse order), under freshness and `CoinsAllOk`. -/
-theorem del_after_add_id_block_partial (m : Store) (b : Block) (A : List KV)
-    (hA : blockAdd m b = some A) (hfresh : ∀ k ∈ ownKeys b, get m k = none) (H : CoinsAllOk b.txs) (k : Key) :
+/-- **Whole block**: plugins + coins hooks in the order of `procExecAddBlock`/`procExecDelBlock`
+(per-transaction removal in reverse order), for a block on top of a chain (own keys unused, no successful genesis
+action). -/
+theorem del_after_add_id_block (m : Store) (b : Block) (A : List KV)
+    (hA : blockAdd m b = some A) (hfresh : ∀ k ∈ ownKeys b, get m k = none) (H : NoGenesisOk b.txs) (k : Key) :
     obsEq (get (applyKVs (applyKVs m A) (blockDel (applyKVs m A) b)) k) (get m k) := by
   unfold blockAdd at hA
   cases hr : readFee (get m (Key.totalFee b.parent)) with
